@@ -258,7 +258,9 @@ def _specialise_templates(c: Ctx, sites: list[TokSite]) -> list[TokSite]:
         params = [a.arg for a in f.node.args.posonlyargs + f.node.args.args + f.node.args.kwonlyargs]
         exprs = [ts.type_expr, ts.tag_expr, ts.nesting_expr] + list(ts.stores.values())
         free = {x.id for e in exprs if e is not None for x in ast.walk(e) if isinstance(x, ast.Name)}
-        is_template = ts.kinds is None and bool(free & set(params)) and f.name not in ("push",)
+        is_template = (ts.kinds is None or (ts.nesting_expr is not None and literal_ints(ts.nesting_expr) is None)
+                       or ("nesting" in ts.stores and literal_ints(ts.stores["nesting"]) is None)) \
+            and bool(free & set(params)) and f.name not in ("push",)
         callers = c.cg.callers.get(f, []) if is_template else []
         if not is_template or not callers:
             out.append(ts)
